@@ -27,6 +27,8 @@ def specs(tier):
         out.append(spec("opring", "unit", ["^", "A", "B"]))
         out.append(spec("hollow", "tinyring", ["|", "A", "B"], lim="1/20"))
         out.append(spec("hollow", "tinyring", ["^", "A", "B"], lim="1/20"))
+        out.append(spec("hbar", "vbar", ["-", "A", "B"], lim="1/3"))  # a result with two loops, each made of pieces of both operands
+        out.append(spec("hbar", "vbar", ["^", "A", "B"], lim="1/3"))
         return out
     pairs = [("square", "square"), ("tri", "unit"), ("penta", "quad"), ("hollow2", "square"), ("two", "square"), ("inv:square", "unit"), ("ell", "tri"),
              ("opring", "unit"), ("youb", "bar2"), ("inv:two", "tri"), ("framedot", "rhombus")]
